@@ -53,6 +53,9 @@ func claimsOf(p string) map[string]bool {
 func generate(prop, tier string, seed uint64, run int) *Scenario {
 	allShapes := []int{0, 0, 1, 1, 2, 3, 4}
 	pick := int(seed>>7) % 100
+	if os.Getenv("VERIF_DEBUG_FAMILY") == "reuse" {
+		return genReuse(prop, seed, run)
+	}
 	switch prop {
 	case "C01":
 		return genMix(prop, seed, run, mixOpts{lagfree: 0.3, apiChurn: 0.12, shapes: allShapes, overflow: 0.12, maxOps: 36, watchFiles: 0.3, worldTasks: 3, withOps: 0.0, burst: 0.04, bigBurst: tier == "thorough"})
@@ -75,6 +78,9 @@ func generate(prop, tier string, seed uint64, run int) *Scenario {
 	case "C06":
 		return genClose(prop, seed, run, tier)
 	case "C13":
+		if pick >= 85 {
+			return genReuse(prop, seed, run)
+		}
 		if pick < 20 {
 			return genChurn(prop, seed, run, tier, tier == "thorough" && pick < 1)
 		}
@@ -100,6 +106,9 @@ func generate(prop, tier string, seed uint64, run int) *Scenario {
 		}
 		return genAPI(prop, seed, run, tier)
 	case "C14":
+		if pick >= 85 {
+			return genReuse(prop, seed, run)
+		}
 		return genMulti(prop, seed, run, tier)
 	case "C19":
 		return genRecurse(prop, seed, run, tier)
